@@ -90,6 +90,9 @@ fixed("C02", "c8f6312", "parseDefinitionMessage returned early for definitions w
 fixed("C02", "689701e", "big-endian widening loop d.tmp[j], d.tmp[j+padding] = 0, d.tmp[j] (ascending, overlapping) zeroed every narrow big-endian field and shifted native fields that are read at offset 0",
       "C02-R8-widening", "decoder.parseDataFields/self-copy-d.tmp")
 
+fixed("C01", "2a4c34a", "on 32-bit targets int(d.h.DataSize) is negative for data sizes >= 2^31; the negative limit became the high bound of the slice handed to Read in fill (panic: slice bounds out of range) — reported by the thorough tier's GOARCH=386 lossy-conversion rule (also under C10)",
+      "thorough-386-lossy-int", "decode/int(*d.h.DataSize)#0")
+
 json.dump({
     "comment": "Genuine defects of tormoder/fit. status=known: recorded, not repaired (reason in DESIGN.md section 1); the check prints KNOWN-FINDING for exactly that (property, rule, key). status=fixed: repaired by the named fix: commit in /repo; suppresses nothing. This file is never written at run time.",
     "findings": F,
